@@ -20,7 +20,7 @@ Symbolic (tier N position checker + induction over stores and mask sweeps):
                         defaults to Q, mode defaults to the classifier's choice.
 -/
 import FastQr.Finite.TablesFormat
-import FastQr.Finite.VersionCells
+import FastQr.Proofs.VersionCellsK
 import FastQr.Proofs.Lift
 import FastQr.Model.Build
 import FastQr.Proofs.BuildSound
@@ -77,9 +77,9 @@ theorem C04_format_in_symbol (inp : List Nat) (o : Opts) (ho : LegalOpts o) (b :
 
 /-- **C04 (version information in the symbol)**: in the blank symbol of every version 7..40 the 36
 version-information cells carry the BCH(18,6) word of the version at the positions of Figure 26
-(tier N checker on the model's write lists) -/
+(tier K: the last store of the blank symbol's write list to each cell, evaluated by the kernel; `Proofs/VersionCellsK`) -/
 theorem C04_version_cells {v : Nat} (hv : v < 40) : Finite.versionCellsOk v = true :=
-  all_range Finite.versionCellsOk_all v hv
+  Proofs.versionCellsOk_of hv
 
 /-- **C04 (version information in every built symbol)**: for every input and option combination for
 which the model builder returns a symbol of version 7..40, the i-th module of Figure 26's position list
